@@ -62,9 +62,12 @@ def one_program(draw, big):
         stmts += [{"id": "m", "op": "op", "name": "map_", "args": [{"fn": "F"}, {"ts": "d"}], "has_out": True},
                   {"id": "rec", "op": "node", "ins": ["m"], "deep": True, "valid": []}]
         return {"start": 0, "end": horizon, "stmts": stmts, "subs": subs}
-    stmts = [{"op": "rr_config"}] + stmts + [{"id": "R", "op": "op", "name": "record", "args": [{"ts": "d"}, {"sc": "buf", "t": "str"}], "has_out": False},
+    # the testing recorder in its dense (cycle-indexed) or sparse ((time, delta) list) layout; the sparse buffer is read raw
+    sparse = draw(st.booleans())
+    stmts = [{"op": "rr_config"}] + stmts + [{"id": "R", "op": "op", "name": "record", "has_out": False,
+                                              "args": [{"ts": "d"}, {"sc": "buf", "t": "str"}] + ([{"sc": True, "t": "bool", "name": "sparse"}] if sparse else [])},
                                              {"id": "rec", "op": "node", "ins": ["d"], "deep": True, "valid": []}]
-    return {"start": 0, "end": horizon, "stmts": stmts, "record_keys": ["buf"]}
+    return {"start": 0, "end": horizon, "stmts": stmts, **({"gs_keys": ["buf"], "sparse_record": True} if sparse else {"record_keys": ["buf"]})}
 
 
 @st.composite
@@ -88,11 +91,15 @@ def case(draw, tier):
         for _ in range(n):
             plan.append({"p": draw(st.integers(0, len(progs) - 1)), "wave": w})
     for p in progs:
-        p["gs_keys"] = ["hv.host.secret"]      # every run reports whether the foreign key is visible in its global state
+        p["gs_keys"] = p.get("gs_keys", []) + ["hv.host.secret"]      # every run reports whether the foreign key is visible in its global state
     # foreign-context stage: while the main thread holds a GlobalContext over its own state, one worker thread at a time
     # wires + builds + runs a program, optionally inside a GlobalContext of its own
     foreign = [{"p": draw(st.integers(0, len(progs) - 1)), "own_ctx": draw(st.booleans())} for _ in range(draw(st.integers(0, 2)))]
-    return {"progs": progs, "plan": plan, "foreign": foreign}
+    # shared-context stage: one GlobalContext spans several wire + run rounds of the RECORDING programs and the state is copied
+    # back after each run (eval_node / lower idiom), so every wiring is seeded with the earlier rounds' buffers under the same key
+    recs = [i for i, p in enumerate(progs) if any(s_.get("name") == "record" for s_ in p["stmts"])]
+    shared = [draw(st.sampled_from(recs)) for _ in range(draw(st.integers(2, 4)))] if recs else []
+    return {"progs": progs, "plan": plan, "foreign": foreign, "shared": shared}
 
 
 def strategy(tier):
@@ -119,7 +126,7 @@ def check(case, ctx) -> Result:
             ref.append((norm_trace(r["trace"]), canon(r.get("recorded")), canon(r.get("error"))))
     finally:
         fresh.close()
-    resp = ctx.request({"op": "batch", "progs": case["progs"], "plan": case["plan"], "foreign": case.get("foreign", [])}, timeout=120)
+    resp = ctx.request({"op": "batch", "progs": case["progs"], "plan": case["plan"], "foreign": case.get("foreign", []), "shared": case.get("shared", [])}, timeout=120)
     if resp.get("crash"):
         res.violations.append(Viol("engine_crash", f"batch run died: {resp.get('signal')} hang={resp.get('hang')} {resp.get('stderr', '')[-400:]}", {"hang": bool(resp.get("hang"))}))
         return res
@@ -167,6 +174,27 @@ def check(case, ctx) -> Result:
             res.violations.append(Viol("run_not_reproducible", f"program {p} wired and run on a worker thread ({how}) while the main thread held a GlobalContext over its own state: {what} differs from the run in a fresh process{detail}",
                                        {"what": what, "foreign": True}))
             break
+    for n_round, run in enumerate(resp.get("shared_runs", [])):
+        p = run["p"]
+        if run.get("build_error"):
+            res.violations.append(Viol("build_depends_on_history", f"program {p} wired inside a GlobalContext that already holds the state of {n_round} earlier round(s) was rejected: {run['build_error']}", {"shared_context": True}))
+            break
+        got = (norm_trace(run["trace"]), canon(run.get("recorded")), canon(run.get("error")))
+        if got != ref[p]:
+            what = "trace" if got[0] != ref[p][0] else "recorded buffer" if got[1] != ref[p][1] else "error"
+            detail = ""
+            if what == "trace":
+                import json
+                a, b = json.loads(ref[p][0]), run["trace"]
+                k = next((i for i, (x, y) in enumerate(zip(a, b)) if x != y), min(len(a), len(b)))
+                detail = f"; first difference at entry {k}: fresh {str(a[k:k + 1])[:300]} vs here {str(b[k:k + 1])[:300]}"
+            res.violations.append(Viol("run_not_reproducible", f"program {p}, round {n_round + 1} inside one GlobalContext whose state is copied back after every run (earlier rounds: {[r_['p'] for r_ in resp['shared_runs'][:n_round]]}): {what} differs from the run in a fresh process{detail}",
+                                       {"what": what, "shared_context": True, "sparse": bool(case["progs"][p].get("sparse_record"))}))
+            break
+    if case.get("shared"):
+        res.labels.append("shared_context_stage")
+        if any(case["progs"][p].get("sparse_record") for p in case["shared"]):
+            res.labels.append("shared_context_sparse_record")
     if case.get("foreign") and "host_size" in resp and (resp["host_size"] != 1 or not resp.get("host_secret")):
         res.violations.append(Viol("foreign_state_written", f"the state selected by the main thread's GlobalContext had 1 key before other threads wired and ran graphs, and {resp['host_size']} afterwards", {"foreign": True}))
     if case.get("foreign"):
@@ -185,6 +213,6 @@ def check(case, ctx) -> Result:
     if any(v >= 3 for v in uses.values()):
         res.labels.append("builder_reused_3x")
     res.labels.append(f"progs_{len(case['progs'])}")
-    ctx.engine_runs += len(case["plan"]) + len(case["progs"]) + len(case.get("foreign", [])) - 1   # executions actually performed by the engine
+    ctx.engine_runs += len(case["plan"]) + len(case["progs"]) + len(case.get("foreign", [])) + len(case.get("shared", [])) - 1   # executions actually performed by the engine
     res.summary = {"plan": [(e["p"], e["wave"]) for e in case["plan"]][:16], "overlapping_pairs": overlaps}
     return res
